@@ -18,7 +18,9 @@
 (***************************************************************************)
 EXTENDS Integers, Sequences, FiniteSets, TLC, Json
 
-CONSTANTS Acct,       \* account names (strings)
+CONSTANTS Acct,       \* account names (strings): they hold keys and send transactions
+          Passive,    \* accounts that only receive (one starts with tokens only: no native coin, nonce 0)
+          InitTok,    \* initial token balance of every holder (units of the one token T)
           Wallet,     \* confidential wallets (strings)
           Amt,        \* amounts a transaction may move (units)
           InitBal,    \* initial balance of every account (units)
@@ -27,21 +29,32 @@ CONSTANTS Acct,       \* account names (strings)
           MaxCoins    \* bound on confidential outputs ever created
 
 Contracts == {"cStore", "cRevert"}   \* keeps what it receives / always reverts
+Holders   == Acct \cup Passive
+\* a third contract, cFwd, forwards the value it receives to the first passive account by an
+\* inner CALL and reverts if that call fails; with a tight gas limit the inner call (which
+\* carries linkchain's extra transfer fee) runs out of gas and the whole transaction fails
+GasClass  == {"ample", "tight"}
 
-VARIABLES bal,      \* Acct -> units
+VARIABLES bal,      \* Holders -> units
+          tok,      \* Holders -> units of token T
           nonce,    \* Acct -> next nonce
           coins,    \* sequence of [owner, amt, spent]: the confidential pool, by creation order
           held,     \* units held by the contracts (cStore)
           h,        \* committed height
           spends,   \* history: coin ids spent on the committed chain, in order
           last      \* label of the last step (output only)
-vars == <<bal, nonce, coins, held, h, spends, last>>
+vars == <<bal, tok, nonce, coins, held, h, spends, last>>
 
-St == [bal |-> bal, nonce |-> nonce, coins |-> coins, held |-> held, spends |-> spends]
+St == [bal |-> bal, tok |-> tok, nonce |-> nonce, coins |-> coins, held |-> held, spends |-> spends]
 
 Supply == Cardinality(Acct) * InitBal
 
-Init == /\ bal = [a \in Acct |-> InitBal] /\ nonce = [a \in Acct |-> 0]
+TokSupply == Cardinality(Holders) * InitTok
+FwdTarget == CHOOSE p \in Passive : TRUE
+
+Init == /\ bal = [a \in Holders |-> IF a \in Acct THEN InitBal ELSE 0]
+        /\ tok = [a \in Holders |-> InitTok]
+        /\ nonce = [a \in Acct |-> 0]
         /\ coins = <<>> /\ held = 0 /\ h = 0 /\ spends = <<>>
         /\ last = [blk |-> <<>>, ok |-> TRUE]
 
@@ -61,6 +74,9 @@ Menu(s) ==
   \cup (IF Len(s.coins) < MaxCoins THEN {Tx("cx", c, w, 0, "ok") : c \in CoinIds(s), w \in Wallet} ELSE {})
   \cup UNION {{Tx("call", f, c, a, s.nonce[f]) : c \in Contracts, a \in {0} \cup Amt} : f \in Acct}
   \cup {Tx("wd", c, t, 0, cls) : c \in CoinIds(s), t \in Acct, cls \in {"inflate", "commit", "fee"}}
+  \cup UNION {{Tx("tok", f, t, a, s.nonce[f]) : t \in Holders \ {f}, a \in Amt} : f \in Acct}
+  \cup UNION {{Tx("fwd", f, g, a, s.nonce[f]) : g \in GasClass, a \in Amt} : f \in Acct}
+  \cup UNION {{Tx("sst", f, "cSlots", p, s.nonce[f]) : p \in {1, 2}} : f \in Acct}
 
 \* one transaction on state s: [ok, s]
 Apply(s, tx) ==
@@ -70,6 +86,24 @@ Apply(s, tx) ==
          IF tx.n = s.nonce[tx.f]
          THEN [ok |-> TRUE, s |-> IF s.bal[tx.f] > tx.a
                                   THEN [s EXCEPT !.bal[tx.f] = @ - tx.a, !.bal[tx.t] = @ + tx.a, !.nonce[tx.f] = @ + 1]
+                                  ELSE [s EXCEPT !.nonce[tx.f] = @ + 1]]
+         ELSE [ok |-> FALSE, s |-> s]
+    [] tx.k = "tok" ->   \* token transfer; uncovered => failed transaction (nonce and fee only)
+         IF tx.n = s.nonce[tx.f]
+         THEN [ok |-> TRUE, s |-> IF s.tok[tx.f] >= tx.a
+                                  THEN [s EXCEPT !.tok[tx.f] = @ - tx.a, !.tok[tx.t] = @ + tx.a, !.nonce[tx.f] = @ + 1]
+                                  ELSE [s EXCEPT !.nonce[tx.f] = @ + 1]]
+         ELSE [ok |-> FALSE, s |-> s]
+    [] tx.k = "sst" ->   \* a storage-writing call (pattern 1 fills twelve slots, pattern 2 overwrites
+                         \* eleven and clears one): no value moves; it exists for C05 (many updates and a
+                         \* deletion in one storage trie within one block)
+         IF tx.n = s.nonce[tx.f]
+         THEN [ok |-> TRUE, s |-> [s EXCEPT !.nonce[tx.f] = @ + 1]]
+         ELSE [ok |-> FALSE, s |-> s]
+    [] tx.k = "fwd" ->   \* call cFwd with value: forwarded to the passive account, or failed as a whole
+         IF tx.n = s.nonce[tx.f]
+         THEN [ok |-> TRUE, s |-> IF tx.t = "ample" /\ s.bal[tx.f] > tx.a
+                                  THEN [s EXCEPT !.bal[tx.f] = @ - tx.a, !.bal[FwdTarget] = @ + tx.a, !.nonce[tx.f] = @ + 1]
                                   ELSE [s EXCEPT !.nonce[tx.f] = @ + 1]]
          ELSE [ok |-> FALSE, s |-> s]
     [] tx.k = "dep" ->
@@ -114,9 +148,9 @@ Offer(blk) ==
   /\ LET r == Exec(St, blk) IN
        /\ last' = [blk |-> blk, ok |-> r.ok]
        /\ IF r.ok
-          THEN /\ bal' = r.s.bal /\ nonce' = r.s.nonce /\ coins' = r.s.coins /\ held' = r.s.held
+          THEN /\ bal' = r.s.bal /\ tok' = r.s.tok /\ nonce' = r.s.nonce /\ coins' = r.s.coins /\ held' = r.s.held
                /\ spends' = r.s.spends /\ h' = h + 1
-          ELSE UNCHANGED <<bal, nonce, coins, held, spends, h>>
+          ELSE UNCHANGED <<bal, tok, nonce, coins, held, spends, h>>
 
 Next == \E blk \in Blocks(St) : Offer(blk)
 Spec == Init /\ [][Next]_vars
@@ -128,18 +162,21 @@ RECURSIVE SumBal(_)
 SumBal(S) == IF S = {} THEN 0 ELSE LET a == CHOOSE a \in S : TRUE IN bal[a] + SumBal(S \ {a})
 
 \* C06: value is neither created nor destroyed (fees are epsilon here; the harness accounts them exactly)
-Conservation == SumBal(Acct) + SumCoins(coins) + held = Supply
-NoNegative == \A a \in Acct : bal[a] >= 0
+Conservation == SumBal(Holders) + SumCoins(coins) + held = Supply
+RECURSIVE SumTok(_)
+SumTok(S) == IF S = {} THEN 0 ELSE LET a == CHOOSE a \in S : TRUE IN tok[a] + SumTok(S \ {a})
+TokenConservation == SumTok(Holders) = TokSupply
+NoNegative == \A a \in Holders : bal[a] >= 0 /\ tok[a] >= 0
 \* C07: every coin is spent at most once on the committed chain; nonces only count executed transactions
 SpentOnce == \A i, j \in DOMAIN spends : i # j => spends[i] # spends[j]
 SpentMarked == \A c \in DOMAIN coins : coins[c].spent <=> \E i \in DOMAIN spends : spends[i] = c
 \* a rejected block changes nothing (block atomicity), an accepted one extends the chain by one
-RejectedIsNoOp == [][~last'.ok => UNCHANGED <<bal, nonce, coins, held, spends, h>>]_vars
+RejectedIsNoOp == [][~last'.ok => UNCHANGED <<bal, tok, nonce, coins, held, spends, h>>]_vars
 NonceCountsExecuted == [][\A a \in Acct : nonce'[a] >= nonce[a]]_vars
 
 (* ---- export ---------------------------------------------------------------- *)
-Proj(b, n, c, hd, sp) == [bal |-> b, nonce |-> n, coins |-> c, held |-> hd, spends |-> sp]
-Edge == PrintT(ToJson([from |-> Proj(bal, nonce, coins, held, spends), act |-> last',
-                       to |-> Proj(bal', nonce', coins', held', spends')]))
-View == <<bal, nonce, coins, held, spends, h>>
+Proj(b, t, n, c, hd, sp) == [bal |-> b, tok |-> t, nonce |-> n, coins |-> c, held |-> hd, spends |-> sp]
+Edge == PrintT(ToJson([from |-> Proj(bal, tok, nonce, coins, held, spends), act |-> last',
+                       to |-> Proj(bal', tok', nonce', coins', held', spends')]))
+View == <<bal, tok, nonce, coins, held, spends, h>>
 =============================================================================
